@@ -51,6 +51,7 @@ def graphs(draw, o=None):
                 body.append(["work", 4])   # holds the script between its redo-stamp call and its exit
         return body
     stem_pair = None
+    stem_by_default = False
     for i in range(nleaf):
         t = "l%d" % i
         # sibling targets that share a stem and differ only in the (last) extension: l0.a / l0.b, or l0 / l0.a
@@ -67,7 +68,15 @@ def graphs(draw, o=None):
             body.append(["always"])
         if draw(st.integers(0, 99)) < p_gate:
             body.append(["work", 1])
-        dofiles[t + ".do"] = {"v": 1, "body": finish(body, t)}
+        dofn = t + ".do"
+        if (t.endswith(".a") or t.endswith(".b")) and o.get("p_stem_default", 0):
+            if t.endswith(".a"):
+                stem_by_default = draw(st.integers(0, 99)) < o["p_stem_default"]
+            if stem_by_default:
+                # both siblings are built by default.<ext>.do rules (their $3 names must still differ)
+                dofn = "default%s.do" % t[-2:]
+        if dofn not in dofiles:
+            dofiles[dofn] = {"v": 1, "body": finish(body, t)}
         leaves.append(t)
     for i in range(nmid):
         t = "m%d" % i
